@@ -957,6 +957,30 @@ func headerHelpers(c *core.Ctx) {
 				return true
 			})
 			fpos := c.Prog.Pos(fn.Pos())
+			// the scan reads the source; a transfer in code that cannot be reached (behind an unconditional return) is no
+			// transfer: the compiled function must contain as many binary calls as the source shows outside loops
+			if sf := c.Prog.SSAFunc(fn); sf != nil && problem == "" {
+				live := 0
+				for _, b := range sf.Blocks {
+					for _, ins := range b.Instrs {
+						if call, ok := ins.(*ssa.Call); ok && calleeName(call) == "encoding/binary."+h.prim {
+							live++
+						}
+					}
+				}
+				srcCalls := 0
+				ast.Inspect(decl.Body, func(n ast.Node) bool {
+					if call, ok := n.(*ast.CallExpr); ok && len(call.Args) == 3 {
+						if cal := typeutil.StaticCallee(pkg.TypesInfo, call); cal != nil && cal.Pkg() != nil && cal.Pkg().Path() == "encoding/binary" && cal.Name() == h.prim {
+							srcCalls++
+						}
+					}
+					return true
+				})
+				if live < srcCalls {
+					problem = fmt.Sprintf("%d of the %d binary.%s calls of %s are in code that cannot be reached: those header words are never transferred", srcCalls-live, srcCalls, h.prim, h.name)
+				}
+			}
 			if problem != "" {
 				c.Fail("C02-HDRFN", key, fpos, problem)
 				continue
